@@ -251,7 +251,17 @@ func (c *netClient) block(b bool) (had bool) {
 //	roles                who believes to be primary
 // ---------------------------------------------------------------------------------------------
 
+// snapGate suspends the node's next WriteSnapshotTo right after it captured its position (at
+// its first shared lock on CKPT) until released: the window in which a writer may commit.
+type snapGate struct {
+	armed   atomic.Bool
+	paused  chan struct{}
+	release chan struct{}
+}
+
 type clusterNode struct {
+	gate   *snapGate
+	hooked *litefs.DB
 	eng    engineImpl
 	srv    *lhttp.Server
 	leaser *nodeLeaser
@@ -535,6 +545,63 @@ func (m *clusterImpl) Do(line string) string {
 			}
 		}
 		return "ok"
+	case "snap-arm", "snap-wait", "snap-release":
+		if len(f) != 2 {
+			return "bad-op"
+		}
+		n, _ := m.node(f[1])
+		if n == nil || !n.up {
+			return "bad-op"
+		}
+		switch f[0] {
+		case "snap-arm":
+			if n.eng.db == nil {
+				n.eng.db = n.eng.store.DB("db")
+			}
+			if n.eng.db == nil || (n.gate != nil && n.gate.armed.Load()) {
+				return "bad-op"
+			}
+			g := &snapGate{paused: make(chan struct{}), release: make(chan struct{})}
+			g.armed.Store(true)
+			n.gate = g
+			if n.hooked != n.eng.db {
+				n.hooked = n.eng.db
+				node := n
+				n.eng.db.VerifSetLockHook(func(t litefs.LockType, prev, next litefs.RWMutexState) {
+					g := node.gate
+					if g != nil && t == litefs.LockTypeCkpt && prev == litefs.RWMutexStateUnlocked && next == litefs.RWMutexStateShared &&
+						g.armed.CompareAndSwap(true, false) {
+						close(g.paused)
+						select {
+						case <-g.release:
+						case <-time.After(5 * time.Second):
+						}
+					}
+				})
+			}
+			return "ok"
+		case "snap-wait":
+			if n.gate == nil {
+				return "bad-op"
+			}
+			select {
+			case <-n.gate.paused:
+				return "paused"
+			case <-time.After(1500 * time.Millisecond):
+				return "no"
+			}
+		default:
+			if n.gate == nil {
+				return "bad-op"
+			}
+			select {
+			case <-n.gate.release:
+			default:
+				close(n.gate.release)
+			}
+			n.gate.armed.Store(false)
+			return "ok"
+		}
 	case "sync":
 		deadline := time.Now().Add(clusterSettle)
 		why := ""
